@@ -518,6 +518,7 @@ impl RHistory {
             }
         }
         if let Some((e2, ch2)) = origin {
+            self.violate("C03", format!("{:?} obtained on channel {} a message that was submitted by {:?} on channel {}: cross-delivered", e, ch, e2, ch2));
             self.violate("C11", format!("{:?} obtained on channel {} a message that was submitted by {:?} on channel {} (its peer is {:?})", e, ch, e2, ch2, peer));
         }
     }
@@ -657,6 +658,24 @@ impl RHistory {
             }
             self.mon(e).outs.push(OutPkt { bytes, pkt, good_deliveries: 0 });
             self.res.nontrivial = true;
+        }
+        // C03: what the sender puts on the wire of an unreliable channel is bounded by what was submitted
+        // (a message leaves at most once per submission; payloads of 4 bytes and more are unique per history)
+        if !self.mons.get(&e).map(|m| m.hostile_in).unwrap_or(false) {
+            let mut over: Option<(u8, usize, usize, usize)> = None;
+            if let Some(m) = self.mons.get(&e) {
+                for ((ch, msg), txs) in m.unrel_carriers.iter() {
+                    if msg.len() >= 4 {
+                        let submitted = m.sent.get(ch).map(|v| v.iter().filter(|x| *x == msg).count()).unwrap_or(0);
+                        if txs.len() > submitted {
+                            over = Some((*ch, msg.len(), txs.len(), submitted));
+                        }
+                    }
+                }
+            }
+            if let Some((ch, len, n, sub)) = over {
+                self.violate("C03", format!("{:?} put an unreliable message of {} bytes on the wire {} times on channel {}, it was submitted {} times", e, len, n, ch, sub));
+            }
         }
         if total_payload > budget {
             self.violate("C14", format!("{:?} emitted {} payload bytes in one tick, budget is {}", e, total_payload, budget));
